@@ -23,7 +23,7 @@ import common as C
 HERE = os.path.dirname(os.path.abspath(__file__))
 CORPUS = os.path.join(C.VERIF, "corpus", "C17")
 
-CLASS_NAMES = {1: "quota_not_enforced", 2: "unknown_user_other_domain", 3: "role_rejected_as_unknown"}
+CLASS_NAMES = {1: "quota_not_enforced"}
 
 # ---------------------------------------------------------------------------
 # population of every world
@@ -38,6 +38,9 @@ POP = [
     {"op": "role_create", "email": "alice@other.org"},
     {"op": "role_create", "email": "old@example.com"},
     {"op": "c17_role_disable", "email": "old@example.com"},
+    # twins: a user whose address, read as a SQL LIKE pattern, matches a role address
+    {"op": "c17_user_create", "name": "support_team", "domain": "example.com"},
+    {"op": "role_create", "email": "support-team@example.com"},
 ]
 
 # recipient classes: (tag, RCPT argument, intended address or None when the RFC shape does not apply)
@@ -57,6 +60,19 @@ def rcpt_classes(fresh):
         ("odd_empty_local", "TO:<@example.com>", "@example.com"),
         ("odd_case", "TO:<Alice@Example.COM>", "Alice@Example.COM"),
         ("odd_space", "TO:<al ice@example.com>", "al ice@example.com"),
+        # "_" / "%" twins (SQL LIKE wildcards) and case twins of role addresses and of users: the property says
+        # "the store of exactly that address", every lookup on the delivery path is an exact match
+        ("like_role_existing_user", "TO:<support_team@example.com>", "support_team@example.com"),
+        ("like_role_underscore", "TO:<suppor_@example.com>", "suppor_@example.com"),
+        ("like_role_percent", "TO:<%@example.com>", "%@example.com"),
+        ("like_role_percent_prefix", "TO:<s%@example.com>", "s%@example.com"),
+        ("like_user_underscore", "TO:<al_ce@example.com>", "al_ce@example.com"),
+        ("like_user_percent", "TO:<%@other.org>", "%@other.org"),
+        ("like_user_domain", "TO:<carol@other_org>", "carol@other_org"),
+        ("case_role_local", "TO:<SUPPORT@example.com>", "SUPPORT@example.com"),
+        ("case_role_domain", "TO:<support@EXAMPLE.COM>", "support@EXAMPLE.COM"),
+        ("case_user_local", "TO:<ALICE@example.com>", "ALICE@example.com"),
+        ("case_user_domain", "TO:<alice@EXAMPLE.com>", "alice@EXAMPLE.com"),
         ("odd_bare", "TO:alice@example.com", None),
         ("odd_double_bracket", "TO:<<alice@example.com>>", None),
         ("odd_not_to", "FOR:<alice@example.com>", None),
@@ -64,7 +80,9 @@ def rcpt_classes(fresh):
         ("rcpt_prefix_case", "To:<alice@example.com>", "alice@example.com"),
     ]
 
-SHAPE_CLASS = {"rcpt_params": "rcpt_params", "rcpt_prefix_case": "rcpt_prefix_case"}
+# recipient classes whose RCPT line the implementation is KNOWN to mis-parse (none since the fixes C17-1/C17-2:
+# the lines tagged rcpt_params / rcpt_prefix_case are ordinary cells now and must satisfy the policy)
+SHAPE_CLASS = {}
 
 # spam header variants: list of (name, lead, segments, trail); logical value computed by logical()
 SPAM_VARIANTS = [
@@ -156,7 +174,7 @@ def make_cells(chk):
 
     ncls = len(rcpt_classes("x"))
     if chk.tier == "quick":
-        picked = rng.sample(cfgs, 110)
+        picked = rng.sample(cfgs, 75)
     else:
         picked = cfgs
     k = rng.randrange(1000)
@@ -330,7 +348,7 @@ COQ_POLICY_DEFS = r"""
 From Raven Require Import Base.Enum Model.Policy Spec.Policy.
 Local Open Scope Z_scope.
 Record pcase := mkCase { c_cfg : config; c_db : db; c_lines : list str; c_intended : option (list str);
-  c_msg : message; o_rcpt : list bool; o_flags : list bool; o_gains : list (store * str); o_users : list user }.
+  c_msg : message; o_rcpt : list bool; o_flags : list bool; o_gains : list (store * str); o_users : list user; o_nreplies : nat }.
 Definition gain_eqb (a b : store * str) := store_eqb (fst a) (fst b) && str_eqb (snd a) (snd b).
 Definition count_g (g : store * str) (l : list (store * str)) := length (filter (gain_eqb g) l).
 Definition same_gains (a b : list (store * str)) :=
@@ -345,14 +363,14 @@ Definition model_ok (c : pcase) : bool :=
   let os := txn_outcomes t in
   list_eqb Bool.eqb (map rcpt_ok (to_rcpt t)) (o_rcpt c) && consistent os &&
   list_eqb Bool.eqb (flags_of os) (o_flags c) && same_gains (gains_of os) (o_gains c) &&
-  list_eqb user_eqb (users (do_db (to_data t))) (o_users c).
+  list_eqb user_eqb (users (do_db (to_data t))) (o_users c) &&
+  Nat.eqb (reply_count (do_reply (to_data t))) (o_nreplies c).
 Definition spec_ok_on (c : pcase) (addrs : list str) : bool :=
   let os := map erase (fst (spec_txn (c_cfg c) (c_db c) addrs (c_msg c))) in
   list_eqb Bool.eqb (flags_of os) (o_flags c) && same_gains (gains_of os) (o_gains c).
 Definition class_on (c : pcase) (addrs : list str) : nat :=
   match classify (c_cfg c) (c_db c) addrs (c_msg c) with
-  | None => 0 | Some K_quota_not_enforced => 1 | Some K_unknown_user_other_domain => 2
-  | Some K_role_rejected_as_unknown => 3 end%nat.
+  | None => 0 | Some K_quota_not_enforced => 1 end%nat.
 (* the addresses as the MODEL parses the lines (None when a line is refused with 501) *)
 Fixpoint all_some (l : list (option str)) : option (list str) :=
   match l with [] => Some [] | Some x :: l' => option_map (cons x) (all_some l') | None :: _ => None end.
@@ -381,9 +399,10 @@ def coq_case(cell, before, ob):
     gains = C.coq_list(["(%s, %s)" % (coq_store(g[0]), C.coq_str(C.unlatin(g[1]))) for g in ob["gains"]])
     users = C.coq_list(["(mkUser %s %s %s)" % (C.coq_str(C.unlatin(n)), C.coq_str(C.unlatin(d)), C.coq_bool(bool(en)))
                         for (n, d, en, _) in ob["users"]])
-    return "(mkCase %s %s %s %s %s %s %s %s %s)" % (
+    return "(mkCase %s %s %s %s %s %s %s %s %s %d)" % (
         coq_cfg(cell["cfg"]), coq_db(before), lines, intended, coq_msg(cell),
-        C.coq_list([C.coq_bool(x) for x in ob["rcpt"]]), C.coq_list([C.coq_bool(x) for x in ob["flags"]]), gains, users)
+        C.coq_list([C.coq_bool(x) for x in ob["rcpt"]]), C.coq_list([C.coq_bool(x) for x in ob["flags"]]), gains, users,
+        len(ob["replies"]))
 
 
 def parse_nat_list(log, name):
@@ -534,7 +553,7 @@ def report_parse_diff(chk, args, impl):
     if m is None:
         chk.broken_obligation("correspondence parse no longer checks: parseRcptTo(%r) = %r differs from the model (no RFC shape: the spec is silent)" % (args, got), payload)
         return
-    cls = "rcpt_params" if m.group(3) else ("rcpt_prefix_case" if m.group(1) not in ("TO:", "to:") else None)
+    cls = None      # no listed parse class any more (C17-1, C17-2 fixed)
     if got == m.group(2):
         if cls is not None:
             chk.notes.append("parseRcptTo(%r) now returns the path %r (differs from the model inside finding class %s; informational)" % (args, got, cls))
@@ -697,7 +716,7 @@ def run(chk):
     mb, sb = set(model_bad), set(spec_bad)
     # does the implementation itself still mis-parse the two shape lines?
     shape_lines = {t: (a, x) for (t, a, x) in rcpt_classes("x") if t in SHAPE_CLASS}
-    pr = C.run_ops([{"op": "batch", "fn": "parseRcptTo", "cases": [{"a": [shape_lines[t][0]]} for t in sorted(shape_lines)]}])
+    pr = {"obs": [{"rs": []}]} if not shape_lines else C.run_ops([{"op": "batch", "fn": "parseRcptTo", "cases": [{"a": [shape_lines[t][0]]} for t in sorted(shape_lines)]}])
     shape_live = set()
     try:
         for t, r1 in zip(sorted(shape_lines), pr["obs"][0]["rs"]):
@@ -769,7 +788,7 @@ def run(chk):
                        "run in Coq on the database view observed before the cell, and with the documented policy). "
                        "Configuration product: default_folder{INBOX,Archive,Spam} x allowed_domains{empty,match,no-match} x "
                        "reject_unknown_user x max_recipients{1,2,100} x max_size{len-1,len,big} x quota{off,under,over,=size,=size-1} "
-                       "(810; quick: seeded sample, thorough: all) x 19 recipient classes x 19 spam-header variants (rotating), "
+                       "(810; quick: seeded sample, thorough: all) x 30 recipient classes (incl. '_'/'%'/case twins of role addresses and users) x 19 spam-header variants (rotating), "
                        "plus multi-recipient transactions; direct-call suites for parseRcptTo, address splitting, isSpamByHeaders, "
                        "ParseMessage header map, config.Validate")
     chk.cov["cells_accepting"] = sum(1 for f in flat if any(f[2]["flags"]))
